@@ -390,6 +390,24 @@ impl Norm {
         }
     }
 
+    /// `&mut R` / `&R` for a receiver R of generated code: R itself when it is a `&mut` parameter of the slice (deref_params, N13c)
+    fn mut_ref_of(&self, recv: &Expr) -> Expr {
+        if let Expr::Path(p) = recv {
+            if p.path.get_ident().map(|i| self.deref_params.iter().any(|d| i == d)).unwrap_or(false) {
+                return parse_quote!(&mut *#recv);
+            }
+        }
+        parse_quote!(&mut #recv)
+    }
+    fn shared_ref_of(&self, recv: &Expr) -> Expr {
+        if let Expr::Path(p) = recv {
+            if p.path.get_ident().map(|i| self.deref_params.iter().any(|d| i == d)).unwrap_or(false) {
+                return parse_quote!(&*#recv);
+            }
+        }
+        parse_quote!(&#recv)
+    }
+
     pub fn log(&mut self, rule: &str, sp: Span) {
         self.applied.push(json!({"rule": rule, "line": sp.start().line}));
     }
@@ -1145,10 +1163,12 @@ impl VisitMut for Norm {
                     let k = self.fresh("k");
                     let ne: Expr = if let Some(fname) = getter.strip_prefix("fn.") {
                         let g = Ident::new(fname, sp);
+                        let rm = self.mut_ref_of(&recv);
+                        let rs = self.shared_ref_of(&recv);
                         parse_quote!({
-                            let #kv = #keys_fn(&#recv);
+                            let #kv = #keys_fn(#rs);
                             for #k in #kv.iter() {
-                                let #pat = #g(&mut #recv, *#k);
+                                let #pat = #g(#rm, *#k);
                                 #(#body_stmts)*
                             }
                         })
@@ -1688,9 +1708,11 @@ impl VisitMut for Norm {
                             let kp = match c.inputs[0].clone() { Pat::Type(pt) => *pt.pat, p => p };
                             let vp = match c.inputs[1].clone() { Pat::Type(pt) => *pt.pat, p => p };
                             let kbind: Vec<Stmt> = if matches!(kp, Pat::Wild(_)) { vec![] } else { vec![parse_quote!(let #kp = #k;)] };
-                            let vbind: Vec<Stmt> = if matches!(vp, Pat::Wild(_)) { vec![] } else { vec![parse_quote!(let #vp = hq_map_value_mut_r(&mut #m, #k);)] };
+                            let rm = self.mut_ref_of(m);
+                            let rs = self.shared_ref_of(m);
+                            let vbind: Vec<Stmt> = if matches!(vp, Pat::Wild(_)) { vec![] } else { vec![parse_quote!(let #vp = hq_map_value_mut_r(#rm, #k);)] };
                             let ne: Expr = parse_quote!({
-                                let #keys = hq_map_keys_c(&#m);
+                                let #keys = hq_map_keys_c(#rs);
                                 for #k in #keys.iter() {
                                     let #keep = { #(#kbind)* #(#vbind)* #body };
                                     if !#keep { #m.remove(#k); }
